@@ -17,7 +17,7 @@ ASSUME = ["roots are the longest common literal prefix of a configuration's temp
           "R8 renderer applies the configured one-to-one value mappings and defaults"]
 BUDGET = {"quick": 16000, "thorough": 1200000}
 NSHARDS = 16
-NAMES = ["ophelia", "d'agger", "back\\slash", "x_rig", "x_rig_WORK", "a_b", "model", "char_x", "v001", "WORK", "b", "a-b", "a.b", "sq010_sh0010", "w", "p_v001", "x_", "yorick ", " lead", "two words", ".", "", "..", "cafe\u0301", "\u212b", "\U00020bb7\u91ce", "Ophelia",
+NAMES = ["ophelia", "d'agger", "back\\slash", "x_rig", "x_rig_WORK", "a_b", "model", "char_x", "v001", "WORK", "b", "a-b", "a.b", "sq010_sh0010", "w", "p_v001", "x_", "yorick ", " lead", "two words", ".", "", "..", "cafe\u0301", "\u212b", "\U00020bb7\u91ce", "Ophelia", "caf\udce9",
          "constable", "console_table", "null_locator", "auxiliary", "com1c_mask", "nul", "CON", "aux.v2", "lpt1", "Thumbs.db", "lost+found", "@eaDir"]   # (names an operating system or a file server gives a meaning to are still names)
 
 
@@ -26,15 +26,33 @@ def shard_args(tier, seed):
     out = []
     for i in range(NSHARDS):
         out.append({"n": n, "seed": seed * 1000 + i // 2, "order": "local_first" if i % 2 == 0 else "server_first", "pair": i // 2,
-                    "pathmap_cap": 1200 if tier == "quick" else 12000, "small_cache": 40 if (i // 2) % 2 else 0})
+                    "pathmap_cap": 1200 if tier == "quick" else 12000, "small_cache": 40 if (i // 2) % 2 else 0,
+                    "conf_through_link": i // 2 == NSHARDS // 2 - 1})
+    return out
+
+
+def envs(snap, shard_args_list):
+    """The last pair of shards reaches its configuration folder (and so the configured roots) through a symbolic link:
+    path(c) is text computed from the configuration, whatever the file system makes of that text."""
+    import os
+    out = []
+    for a in shard_args_list:
+        if a.get("conf_through_link") or (a.get("replay") or {}).get("conf_through_link"):
+            real = os.path.dirname(snap.conf_copy("c05real"))
+            link = os.path.join(snap.root, "conf_c05_link")
+            if not os.path.islink(link):
+                os.symlink(real, link)
+            out.append(snap.env(conf_dir=os.path.join(link, "spil_hamlet_conf")))
+        else:
+            out.append(snap.env())
     return out
 
 
 def run(snap, tier, seed, t0, replay):
     if replay is not None:
-        return driver.simple_run("C05", snap, tier, seed, t0, replay, LEVEL, RULE, ASSUME, shard_args)
+        return driver.simple_run("C05", snap, tier, seed, t0, replay, LEVEL, RULE, ASSUME, shard_args, envs_fn=envs)
     args = shard_args(tier, seed)
-    results = run_shards(snap, "c05", args)
+    results = run_shards(snap, "c05", args, envs=envs(snap, args))
     m = harness.merge(results)
     # cross-process purity: same seed, different configuration order
     pairs = {}
@@ -136,8 +154,12 @@ def worker(args):
     signature = {c: repr((sorted((n, t.tpl[len(pm.root):]) for n, t in pm.templates.items()), sorted(pm.mapping.items(), key=repr), sorted(pm.defaults.items())))
                  for c, pm in pms.items()}
 
+    link = bool(args.get("conf_through_link") or (args.get("replay") or {}).get("conf_through_link"))
+    if link:
+        rec.count("shards_with_configuration_through_a_link")
+
     def one(s, force_none=False):
-        case = {"s": s}
+        case = {"s": s, "conf_through_link": True} if link else {"s": s}
         x = Sid(s)
         rels = {}
         for c in configs:
